@@ -43,8 +43,12 @@ def candidates(st):
     return out, set(own)
 
 
-def first_line_body(rng, st, head, n, le="\n", planted=False, bom=False):
-    lines = [long_line(head + rng.choice(["", " "]), n, rng.choice(FILLS))]
+#: fills binaryornot takes for text (a dense run of multi-byte characters looks binary to it: the header then goes to FILE.license)
+TEXT_FILLS = ["x", "var a=1;", "<p>t</p>", "a b ", "é = 1; "]
+
+
+def first_line_body(rng, st, head, n, le="\n", planted=False, bom=False, fills=FILLS):
+    lines = [long_line(head + rng.choice(["", " "]), n, rng.choice(fills))]
     if planted:
         lines += st.create_comment("SPDX-FileCopyrightText: 2017 Prev Holder\n\nSPDX-License-Identifier: ISC").split("\n") + [""]
     lines += [rng.choice(G.CODE_LINES) for _ in range(rng.randint(0, 3))]
@@ -162,7 +166,8 @@ class FirstLineE2EStream(base.EndToEndStream):
                     o["dot"] = rng.choice(["fallback", "skip"])
                 cpr, lic, con = G.rand_request(rng)
                 n = rng.choice(SIZES)
-                body = first_line_body(rng, st, head, n, le=rng.choice(["\n", "\n", "\n", "\r\n"]), planted=rng.random() < 0.12, bom=rng.random() < 0.06)
+                body = first_line_body(rng, st, head, n, le=rng.choice(["\n", "\n", "\n", "\r\n"]), planted=rng.random() < 0.12, bom=rng.random() < 0.06,
+                                       fills=TEXT_FILLS)
                 if st.__name__ in by_style and rng.random() < 0.85:
                     kind, key, style = rng.choice(by_style[st.__name__])
                     f = {"name": G.name_for(kind, key), "body": body, "entry": [kind, key, style], "kind": "table"}
